@@ -1,0 +1,27 @@
+//go:build verif
+
+package parse
+
+// Verification hooks, compiled only with -tags verif.
+//
+// VerifEnterHook is called as the first statement of collectSpecs, before any
+// shared state is touched; it may block (scheduler gate).
+// VerifClaimHook is called at the linearisation point of collectSpecs: kind is
+// "cut" (depth limit reached), "dup" (index already claimed; called while the
+// mutex is held) or "claimed" (index claimed; called while the mutex is held).
+var (
+	VerifEnterHook func(filename string, depth int)
+	VerifClaimHook func(kind, filename, index string, depth int)
+)
+
+func verifEnter(filename string, depth int) {
+	if h := VerifEnterHook; h != nil {
+		h(filename, depth)
+	}
+}
+
+func verifClaim(kind, filename, index string, depth int) {
+	if h := VerifClaimHook; h != nil {
+		h(kind, filename, index, depth)
+	}
+}
